@@ -78,11 +78,15 @@ Proof. split; vm_compute; reflexivity. Qed.
         the buffered bytes PLUS the header line that is still pending because its look-ahead byte fell at a chunk end (Example sg_limit_premise_needed:
         with limit 20 and lines of at most 17 bytes the single-chunk run completes, the run cut at 39 and 40 ends in STREAM_ERROR) ---- *)
 Require Import Htp.Spec.SWire Htp.Proof.PWireExch Htp.Proof.PWireGlue Htp.Proof.PSeg Htp.Proof.PSegRun.
+(* the proofs' observation function is this file's c03_obs (same body); stated once as an equation so that no proof below depends on the kernel
+   unfolding cp_run to find that out *)
+Lemma c03_obs_is_sg_obs : c03_obs = sg_obs.
+Proof. reflexivity. Qed.
 Theorem C03_request_chunking : forall cb g r (chunks : list bytes),
   wr_all_ok cb -> g_allow_space_uri g = false -> wr_request_ok r = true -> sg_fits g r = true ->
   Forall (fun x => x <> []) chunks -> concat chunks = wr_request_wire r ->
   c03_obs cb g (OpOpen :: map OpReqData chunks) = c03_obs cb g [OpOpen; OpReqData (wr_request_wire r)].
-Proof. exact sg_request_chunking_obs. Qed.
+Proof. rewrite c03_obs_is_sg_obs. exact sg_request_chunking_obs. Qed.
 Print Assumptions C03_request_chunking.
 (* ... and what is reported is what was sent (with C02's fidelity theorem for the single-chunk delivery) *)
 Theorem C03_request_chunking_reported : forall cb g r (chunks : list bytes),
@@ -100,7 +104,7 @@ Theorem C03_request_folding_and_chunking : forall cb g r (cuts1 : list (list byt
   sg_cuts_ok r cuts1 = true -> sg_fold_fits g r cuts1 = true -> Forall (fun x => x <> []) chunks1 -> concat chunks1 = sg_fold_wire r cuts1 ->
   sg_cuts_ok r cuts2 = true -> sg_fold_fits g r cuts2 = true -> Forall (fun x => x <> []) chunks2 -> concat chunks2 = sg_fold_wire r cuts2 ->
   c03_obs cb g (OpOpen :: map OpReqData chunks1) = c03_obs cb g (OpOpen :: map OpReqData chunks2).
-Proof. exact sg_request_fold_chunking_obs. Qed.
+Proof. rewrite c03_obs_is_sg_obs. exact sg_request_fold_chunking_obs. Qed.
 Print Assumptions C03_request_folding_and_chunking.
 Theorem C03_request_folding_reported : forall cb g r (cuts : list (list bytes)) (chunks : list bytes),
   wr_all_ok cb -> g_allow_space_uri g = false -> wr_request_ok r = true -> sg_cuts_ok r cuts = true -> sg_fold_fits g r cuts = true ->
@@ -115,5 +119,5 @@ Theorem C03_request_body_chunking : forall cb g r (body : bytes) (cuts1 : list (
   sg_cuts_ok r cuts1 = true -> sg_fold_fits g r cuts1 = true -> Forall (fun x => x <> []) chunks1 -> concat chunks1 = sg_fold_wire r cuts1 ++ body ->
   sg_cuts_ok r cuts2 = true -> sg_fold_fits g r cuts2 = true -> Forall (fun x => x <> []) chunks2 -> concat chunks2 = sg_fold_wire r cuts2 ++ body ->
   c03_obs cb g (OpOpen :: map OpReqData chunks1) = c03_obs cb g (OpOpen :: map OpReqData chunks2).
-Proof. exact sg_request_body_chunking_obs. Qed.
+Proof. rewrite c03_obs_is_sg_obs. exact sg_request_body_chunking_obs. Qed.
 Print Assumptions C03_request_body_chunking.
